@@ -23,6 +23,8 @@ ENGINES = [
  {"name": "pure-harness", "path": "harness/pure", "kind_free_text": "Rust harness driving the public APIs of penguin_mux::frame, cow-bytes, penguin-socks; output compared line by line with the extracted model"},
 ]
 HOOK_COMMITS = []
+import sys
+sys.path.insert(0, os.path.dirname(os.path.abspath(__file__)))
 try:
     from manifest_extra import CLAIMED as C2, ENGINES as E2, HOOK_COMMITS as H2, NOT_APPLICABLE as NA
     CLAIMED.update(C2); ENGINES += E2; HOOK_COMMITS += H2
